@@ -131,7 +131,9 @@ def register(R):
     # task sets the result before it announces; C04 exactly-one-announcer); so the two unlocked reads
     # of _exception see one value.  Under that assumption the coordinator is read sequentially.
     R.contract(
-        f'{TC}.result', props=['C17', 'C03'], self_type=ObjT(TC), params={},
+        # result() is the barrier everything else leans on (cleanups / aborts done, temp files gone, shutdown waits through it):
+        # it returns or raises only after it waited for the done event -- on every path, also for an already failed transfer
+        f'{TC}.result', props=['C17', 'C03', 'C05', 'C06', 'C07', 'C08', 'C18'], self_type=ObjT(TC), params={},
         returns=ExtT('result'), raise_when={'Exception': lambda c: None, 'KeyboardInterrupt': lambda c: None},
         setup=lambda eng, st, args, self_val: st.assume(_inv_at(eng, st, self_val)),
         ensures=lambda c: {
@@ -141,7 +143,8 @@ def register(R):
         checks=lambda c: {'waited_for_done_event': z3.BoolVal(any(e.name == 'event.wait' for e in c.trace))},
         raises={
             '$stored': lambda c: {'raises_exactly_the_stored_exception': z3.And(
-                z3.Not(is_none(c.oldf('_exception'))), c.exc.attrs['term'] == term_of(c.oldf('_exception').val))},
+                z3.Not(is_none(c.oldf('_exception'))), c.exc.attrs['term'] == term_of(c.oldf('_exception').val)),
+                'waited_for_done_event': z3.BoolVal(any(e.name == 'event.wait' for e in c.trace))},
             'KeyboardInterrupt': lambda c: {'only_from_the_wait': z3.BoolVal(True)},
         },
     )
